@@ -453,37 +453,41 @@ Section WithTables.
   Definition avail_gpus (p : nodeparams) : Z :=
     if negb (n_gpn p =? 0) && negb (n_bg p =? 0) then n_gpn p - n_bg p else n_gpn p.
 
+  (* requested_nodes: given, or math.ceil(max(gpus / avail_gpus, cores / avail_cores)) *)
+  Definition req_nodes (ac ag nodes cores gpus : Z) : res Z :=
+    if negb (nodes =? 0)
+    then (if ac =? 0 then inl RuntimeError else inr nodes)       (* 'use "cores" in PilotDescription' *)
+    else
+      (* requested_nodes as a fraction num/den *)
+      let '(n1, d1) := if negb (ac =? 0) then (cores, ac) else (nodes, 1) in
+      let '(n2, d2) :=
+          if negb (ag =? 0)
+          then (if (if (ac <? 0) || (ag <? 0)
+                    then frac_le n1 d1 gpus ag         (* negative sizes (SMT < 0): sign-aware *)
+                    else n1 * ag <=? gpus * d1)        (* max(gpus / ag, requested_nodes) *)
+                then (gpus, ag) else (n1, d1))
+          else (n1, d1) in
+      inr (cdiv n2 d2).
+
+  (* the figures written to jd_dict, agent_cfg and pilot['resources'] *)
+  Definition mk_sized (p : nodeparams) (rn cores gpus backup : Z) : sized :=
+    let tc := (rn + backup) * avail_cores p in
+    let tg := (rn + backup) * avail_gpus p in
+    let alloc_c := if tc =? 0 then cores else tc in          (* (...) or requested_cores *)
+    let alloc_g := if tg =? 0 then gpus else tg in
+    {| s_node_count := rn + backup; s_total_cpu := alloc_c; s_total_gpu := alloc_g;
+       s_pph := avail_cores p; s_smt := n_smt p;
+       a_nodes := rn; a_backup := backup; a_cores := alloc_c; a_gpus := alloc_g;
+       a_cpn := smt_cores p; a_gpn := n_gpn p; p_cpu := alloc_c; p_gpu := alloc_g |}.
+
   (* the arithmetic from "estimate requested resources" to the job description *)
   Definition size_pilot (p : nodeparams) (nodes cores gpus backup : Z) : res sized :=
-    let cpn := smt_cores p in
-    let ac := avail_cores p in
-    let ag := avail_gpus p in
-    if negb (cpn =? 0) && negb (n_bc p =? 0) && negb (0 <? ac) then inl AssertionError else
-    if negb (n_gpn p =? 0) && negb (n_bg p =? 0) && negb (0 <=? ag) then inl AssertionError else
-    do rn <- (if negb (nodes =? 0)
-              then (if ac =? 0 then inl RuntimeError else inr nodes)
-              else if (ac <? 0) || (ag <? 0) then
-                (* negative sizes (SMT < 0): same computation, sign-aware comparison *)
-                let '(n1, d1) := if negb (ac =? 0) then (cores, ac) else (nodes, 1) in
-                let '(n2, d2) := if negb (ag =? 0)
-                                 then (if frac_le n1 d1 gpus ag then (gpus, ag) else (n1, d1))
-                                 else (n1, d1) in
-                inr (cdiv n2 d2)
-              else
-                (* requested_nodes as a fraction num/den, den > 0 *)
-                let '(n1, d1) := if negb (ac =? 0) then (cores, ac) else (nodes, 1) in
-                let '(n2, d2) := if negb (ag =? 0)
-                                 then (if n1 * ag <=? gpus * d1 then (gpus, ag) else (n1, d1))   (* max *)
-                                 else (n1, d1) in
-                inr (cdiv n2 d2));
-    let tc := (rn + backup) * ac in
-    let tg := (rn + backup) * ag in
-    let alloc_c := if tc =? 0 then cores else tc in
-    let alloc_g := if tg =? 0 then gpus else tg in
-    inr {| s_node_count := rn + backup; s_total_cpu := alloc_c; s_total_gpu := alloc_g;
-           s_pph := ac; s_smt := n_smt p;
-           a_nodes := rn; a_backup := backup; a_cores := alloc_c; a_gpus := alloc_g;
-           a_cpn := cpn; a_gpn := n_gpn p; p_cpu := alloc_c; p_gpu := alloc_g |}.
+    if negb (smt_cores p =? 0) && negb (n_bc p =? 0) && negb (0 <? avail_cores p)
+    then inl AssertionError else
+    if negb (n_gpn p =? 0) && negb (n_bg p =? 0) && negb (0 <=? avail_gpus p)
+    then inl AssertionError else
+    do rn <- req_nodes (avail_cores p) (avail_gpus p) nodes cores gpus;
+    inr (mk_sized p rn cores gpus backup).
 
   Definition get_int (k : string) (d : dict) : res Z :=
     match dget k d with JInt z => inr z | _ => inl Unmodelled end.
